@@ -40,6 +40,22 @@ pub fn generate(g: &mut Gen) {
             }
         }
     }
+    // one-cell (1x1) and one-row / one-column kernels with strides > 1, several channels: the window still moves by the stride
+    for (k, st, p_) in [((1usize, 1usize), (2usize, 3usize), (0usize, 0usize)), ((1, 1), (1, 2), (0, 1)), ((1, 3), (2, 2), (0, 1)), ((3, 1), (2, 3), (1, 0)), ((1, 1), (3, 1), (1, 1))] {
+        let ks = (0..3).map(|_| weights(g, &Shape::Triple(2, k.0, k.1), 0.7)).collect();
+        single_layer(g, InnerSpec::Conv { filters: 3, act: "tanh".into(), k, s: st, p: p_, d: (1, 1), dropout: None, ks }, Sh::Vol(2, 5, 7), &format!("conv/thin-kernel-strided/{}x{}", k.0, k.1));
+        let ks = (0..2).map(|_| weights(g, &Shape::Triple(2, k.0, k.1), 0.7)).collect();
+        single_layer(g, InnerSpec::Deconv { filters: 2, act: "sigmoid".into(), k, s: st, p: (0, 0), dropout: None, ks }, Sh::Vol(2, 3, 4), &format!("deconv/thin-kernel-strided/{}x{}", k.0, k.1));
+    }
+    // a max-pool BEHIND another layer whose window and stride differ (overlapping and gapped pooling, per axis)
+    for (k, st) in [((3usize, 3usize), (2usize, 2usize)), ((2, 3), (1, 2)), ((2, 2), (3, 3)), ((1, 2), (2, 1)), ((3, 1), (1, 3))] {
+        let first = InnerSpec::Conv { filters: 2, act: "tanh".into(), k: (1, 1), s: (1, 1), p: (0, 0), d: (1, 1), dropout: None, ks: (0..2).map(|_| weights(g, &Shape::Triple(2, 1, 1), 0.8)).collect() };
+        let net = NetSpec { input: Shape::Triple(2, 6, 8), builds: vec![Build::Layer(first), Build::Layer(InnerSpec::Maxpool { k, s: st })], skipacc: "add".into(), loopacc: "mean".into(), opt: None, obj: "mse".into(), clamp: None };
+        let x = input_for(g, &net.input);
+        g.push(format!("net {} forward {}", net.token(), qt(&x)), Tol::Tight, "maxpool/behind-a-layer", true);
+        g.push(format!("net {} predict {}", net.token(), qt(&x)), Tol::Tight, "maxpool/behind-a-layer", true);
+        g.push(format!("net {} shapes", net.token()), Tol::Exact, "maxpool/behind-a-layer/shapes", true);
+    }
     // max-pool over data without a positive entry (all negative; negative and zero): the maximum is the least negative value
     for (k, st) in [((2usize, 2usize), (2usize, 2usize)), ((2, 3), (1, 2)), ((1, 1), (1, 1))] {
         let net = NetSpec { input: Shape::Triple(2, 4, 6), builds: vec![Build::Layer(InnerSpec::Maxpool { k, s: st })], skipacc: "add".into(), loopacc: "mean".into(), opt: None, obj: "mse".into(), clamp: None };
